@@ -1,8 +1,14 @@
-(** C07 (stage A): the disassembler's vocabulary, translated from the source
-    on this run, is the specification's and is injective per operand kind. *)
+(** C07 - disassembly is a complete, unambiguous rendering of the instruction
+    stream.  Statements only; proofs are [exact] of lemmas of Inst/C07_inst.v,
+    Inst/DisVocab.v, Proofs/DisasmFacts.v.  The token-level model
+    (Model/Disasm.v: one token per printed word) is run against the real
+    Module::disassemble on every check; the lexical layer (digits, float text,
+    string escaping) is outside the model and compared word by word.  V is the
+    vocabulary translated from the source on this run. *)
 From RV Require Import Model.Base Model.Spirv.
 From RV Require Import Gen.SpirvData Gen.DisasData Inst.C07_inst.
 From RV Require Gen.RefDisas.
+From RV Require Import Model.Grammar Model.Inst Model.Module Model.Parser Model.Disasm Spec.Conforms Proofs.LayoutFacts Proofs.DisasmFacts Inst.Linked Inst.DisVocab.
 
 Theorem C07_masks_and_enumerants_by_specification_names :
   list_eqb (pair_eqb str_eqb ss_list_eqb) mask_names RefDisas.mask_names = true /\
@@ -17,6 +23,77 @@ Proof. exact every_mask_rendered_by_name. Qed.
 Theorem C07_mask_tables_complete_and_injective : forallb table_ok flags = true.
 Proof. exact mask_tables_complete. Qed.
 
+(** the vocabulary of this run is well-formed: names of one kind pairwise
+    distinct, bit tables single distinct bits, "None" not a bit name, distinct
+    opcode names ... (boolean, computed by the kernel) *)
+Theorem C07_vocabulary_wellformed : v_table V = gd_table G /\ vocab_ok G V = true.
+Proof. exact (conj vocab_table vocab_wf). Qed.
+
+(** exactly one line per instruction, in assembly order *)
+Theorem C07_one_line_per_instruction :
+  forall h m,
+  snd (dis_module V h m) = map (render V (module_tracker V m) (module_sets m)) (tagged_insts m)
+  /\ length (snd (dis_module V h m)) = length (all_insts m).
+Proof. exact (one_line_per_instruction V). Qed.
+
+Theorem C07_lines_follow_assembly_order : forall m, map snd (tagged_insts m) = all_insts m.
+Proof. exact tagged_insts_all. Qed.
+
+Theorem C07_header_comment : forall h m, fst (dis_module V h m) = option_map dis_header h.
+Proof. exact (header_line V). Qed.
+
+(** `%id = ` iff the instruction has a result id, then Op + the specification
+    name, the result type if any, and one token per operand in order *)
+Theorem C07_line_shape :
+  forall i,
+  dis_inst V i
+  = rid_toks (i_rid i) ++ [DOp (op_name V (i_opcode i))] ++ rt_toks (i_rtype i) ++ map (dis_operand V) (i_ops i)
+  /\ (forall r, i_rid i = Some r -> rid_toks (i_rid i) = [DId r; DEq])
+  /\ (i_rid i = None -> rid_toks (i_rid i) = [])
+  /\ (forall t, i_rtype i = Some t -> rt_toks (i_rtype i) = [DId t])
+  /\ (i_rtype i = None -> rt_toks (i_rtype i) = [])
+  /\ (forall e, get_entry (v_table V) (i_opcode i) = Some e -> op_name V (i_opcode i) = g_name e)
+  /\ length (dis_inst V i) = (blen (i_rid i) 2 + 1 + blen (i_rtype i) 1 + length (i_ops i))%nat.
+Proof. exact (line_shape_plain V). Qed.
+
+(** reading a line back with the same vocabulary reconstructs the instruction
+    exactly: every conforming instruction, every renderer (plain, typed
+    constant, named extended instruction), parameterised enumerants and masks,
+    OpSwitch pairs and nested OpSpecConstantOp included *)
+Theorem C07_read_back :
+  forall t sets i tag, conforms G t i = true ->
+  read_inst G V t sets (render V t sets (tag, i)) = Some i.
+Proof. exact (read_dis G V vocab_table vocab_wf). Qed.
+
+(** so two different instruction streams never share a disassembly *)
+Theorem C07_unambiguous :
+  forall t sets (l1 l2 : list (ctag * inst)),
+  Forall (fun ti => conforms G t (snd ti) = true) l1 ->
+  Forall (fun ti => conforms G t (snd ti) = true) l2 ->
+  map (render V t sets) l1 = map (render V t sets) l2 -> map snd l1 = map snd l2.
+Proof. exact (unambiguous_lines G V vocab_table vocab_wf). Qed.
+
+(** ... the context (tracked types, imported sets) being itself determined by the lines *)
+Theorem C07_unambiguous_modules :
+  forall h h' m m',
+  module_conforms G V m -> module_conforms G V m' ->
+  map (render_global V (module_tracker V m)) (m_imports inst m)
+    = map (render_global V (module_tracker V m')) (m_imports inst m') ->
+  map (render_global V (module_tracker V m)) (m_types_global_values inst m)
+    = map (render_global V (module_tracker V m')) (m_types_global_values inst m') ->
+  snd (dis_module V h m) = snd (dis_module V h' m') ->
+  module_tracker V m = module_tracker V m' /\ module_sets m = module_sets m'
+  /\ all_insts m = all_insts m'.
+Proof. exact (unambiguous_modules G V vocab_table vocab_wf). Qed.
+
 Print Assumptions C07_masks_and_enumerants_by_specification_names.
 Print Assumptions C07_every_mask_kind_rendered_by_name.
 Print Assumptions C07_mask_tables_complete_and_injective.
+Print Assumptions C07_vocabulary_wellformed.
+Print Assumptions C07_one_line_per_instruction.
+Print Assumptions C07_lines_follow_assembly_order.
+Print Assumptions C07_header_comment.
+Print Assumptions C07_line_shape.
+Print Assumptions C07_read_back.
+Print Assumptions C07_unambiguous.
+Print Assumptions C07_unambiguous_modules.
